@@ -13,9 +13,37 @@ trial is reported) logs every trial in report order.  Offline checks on the log:
 Executors: serial; ScriptedPool (vf/sched.py) forcing completion orders - every permutation when
 all trials fit in the pre-dispatch window (<=5), seeded orders beyond; a real thread pool;
 (thorough) loky / concurrent.futures process pools.
+
+Widened (the ways a user READS "the figures it records", and configurations never driven before):
+  S1  every successful trial's score is the score of ITS tree: |score - objective(tree)**score_compression|
+      <= 1e-5 (the smudge), objective(tree) from the independent cost model (flops/write/size/combo/limit,
+      also given as Objective instances with non-default parameters, and a plain function log2(flops) of the
+      trial - for which H4 demands that the recorded flops/write/size are nevertheless the tree's)
+  S2  the returned tree's true objective value is the minimum over the true values of all successful trials
+  R1  get_trials(): row i is trial i in report order - its method, its params, its size/flops/write; the
+      winner's row carries the independent model's figures of the RETURNED tree
+  R2  get_trials(sort=...): every successful trial keeps its own (method, figures, params) record in every
+      sorted view and no record appears that no trial produced (whether failed trials are listed is not asserted)
+  R3  print_trials(): one line per trial with that trial's method / log figures / params
+  R4  to_df() / to_dfs_parametrized(): the rows are, one to one, the reported trials - method, score, a logarithm
+      of each figure and (parametrized) the parameters that trial ran with; rows are matched by content, the
+      numbering of the `run` column is not asserted; without pandas: counted under extra.unobserved, not required
+  R5  get_tree() / .tree / .path / __call__ (opt_einsum interface) all describe the returned best tree
+  P1  a SECOND search on the same optimizer after switching `opt.parallel` (serial <-> scripted pool <->
+      thread pool): each search runs <= max_repeats trials, the pool that was set is the one used, and
+      H1-H4 hold over the whole record
+  C1  HyperCompressedOptimizer (chi, compressed objectives, reconf_opts -> windowed reconfiguration): the
+      winner's recorded figures and score are those of the returned tree, recomputed on a tree rebuilt from
+      the returned contraction order with the user's chi (None = square of the largest dimension)
+plus: numeric max_time, progbar=True, methods=None / a single string, optlib=None, on_trial_error='warn',
+forested reconfiguration options, parallel='threads' and (one forced case in every 4th shard) the default
+parallel='auto', which is a loky process pool on this installation.
 """
 
+import contextlib
+import io
 import itertools
+import math
 import traceback
 import warnings
 
@@ -33,17 +61,41 @@ RULE = (
     "objective in {flops,size,write,combo,limit} x post-processing in {none, slicing_opts, reconf_opts, "
     "slicing_reconf_opts, simulated_annealing_opts(+target_size)} x executor in {serial, scripted pool with forced "
     "completion order, thread pool, (thorough) process pools} x max_repeats 1-12 x max_time; distinct = distinct "
-    "(network, methods, objective, post-processing, executor, completion order); non-trivial = >=3 trials reported"
+    "(network, methods, objective, post-processing, executor, completion order); non-trivial = >=3 trials reported. "
+    "Widened dimensions (drawn from a derived generator, the base case stream is unchanged): objective given as an "
+    "Objective instance with non-default parameters or as a plain function of the trial dict (post-processing 'none' only); methods=None / one string; optlib=None; numeric max_time "
+    "{0, 3ms, 30s}; progbar; on_trial_error='warn'; forested reconf / slicing_reconf; parallel='auto'/'threads'; "
+    "api search / __call__; a second search on the same object after switching opt.parallel; "
+    "HyperCompressedOptimizer x chi {None,2,4,8} x 6 compressed objectives x reconf_opts (windowed) on/off; "
+    "after every search the record is read back through get_trials / print_trials / to_df / to_dfs_parametrized"
 )
 ASSUMPTIONS = [
     "optlib='random' (seeded) for the with/without-fault comparison; cmaes also exercised for H1-H4",
     "process pools are non-deterministic stress only",
+    "the score smudge (gauss, sigma 1e-6) stays below 1e-5; score_compression is read from the optimizer object",
+    "compressed figures: CompressedStatsTracker of a tree rebuilt from the returned path is the reference (a second route, "
+    "not an independent model); 'size' may be the tracker's max_size or peak_size (write for write-compressed) as the objectives record",
+    "to_dfs_parametrized reports write as log2 and to_df as log10: either logarithm is accepted for every figure column",
+    "HyperMultiOptimizer / TrialTreeMulti is outside the statement (no constructor sets varmults/numconfigs, not in the quantifier)",
+    "a plain function as minimize (documented: 'a custom callable [taking] a trial dict') is only combined with post-processing "
+    "'none': slicing_opts / reconf_opts / simulated_annealing_opts need Objective methods (score_slice_index, cost_local_tree_node) "
+    "that a plain function cannot offer, so those combinations are outside what the library can promise",
 ]
 REQUIRED_MONITORS = ["H1_count", "H2_best_is_min", "H3_tree_of_query", "H4_costs_true", "H5_faults_skipped", "scripted_orders", "threadpool_runs",
-                     "post:none", "post:slicing", "post:reconf", "post:slicing_reconf", "post:anneal", "post:stacked"]
+                     "post:none", "post:slicing", "post:reconf", "post:slicing_reconf", "post:anneal", "post:stacked",
+                     "S1_score_of_tree", "S2_true_min", "R1_get_trials", "R2_sorted_views", "R3_print_trials", "R4_dataframes",
+                     "R5_get_tree_path", "P1_second_search", "P1_pool_switch", "C1_compressed_figures", "cfg:compressed_reconf",
+                     "cfg:objective_instance", "cfg:plain_callable", "cfg:max_time_seconds", "cfg:progbar", "cfg:call_api", "cfg:forest"]
 SHARD_TIMEOUT = {"quick": 500, "thorough": 5400}
 
 FAULT = {"calls": 0, "fail_at": {}, "on": False}
+
+
+import importlib.util as _ilu
+
+if _ilu.find_spec("pandas") is None:
+    # to_df / to_dfs_parametrized cannot be observed without pandas: counted under extra.unobserved, never a failure
+    REQUIRED_MONITORS.remove("R4_dataframes")
 
 
 def faulty_method(inputs, output, size_dict, k=0, **kw):
@@ -77,6 +129,20 @@ POSTS = ("none", "slicing", "reconf", "slicing_reconf", "anneal", "anneal_sliced
          # stacked options: each wrapper must leave the figures of the FINAL tree in the trial
          "slicing+reconf", "anneal+slicing", "slicing_reconf+reconf", "anneal+slicing+reconf")
 
+COMPRESSED_METHODS = ("greedy-compressed", "greedy-span", "kahypar-agglom")
+COMPRESSED_OBJECTIVES = ("peak-compressed", "size-compressed", "max-compressed", "flops-compressed", "write-compressed", "combo-compressed")
+# Objective instances with non-default parameters: (class name in cotengra.scoring, kwargs)
+OBJECTIVE_SPECS = (
+    ("FlopsObjective", {"secondary_weight": 0.0}), ("FlopsObjective", {"secondary_weight": 0.05}),
+    ("SizeObjective", {"secondary_weight": 0.01}), ("WriteObjective", {"secondary_weight": 0.0}),
+    ("ComboObjective", {"factor": 256}), ("ComboObjective", {"factor": 1}), ("LimitObjective", {"factor": 8}),
+)
+# HyperOptimizer(minimize=<plain function of the trial dict>): F-C08-1 of FINDINGS_widen-d.md, repaired in /repo by
+# cc45b0a (ComputeScore fills in flops / write / size from the trial's tree).  Generated only WITHOUT post-processing
+# options: slicing / reconfiguration / annealing call Objective methods on the tree's default objective, which a
+# plain function does not have (see ASSUMPTIONS).
+PLAIN_CALLABLE_MINIMIZE = True
+
 
 def post_opts(post, tree_size):
     if "+" in post:
@@ -95,36 +161,85 @@ def post_opts(post, tree_size):
         return {"simulated_annealing_opts": {"tsteps": 2, "numiter": 2, "seed": 7}}
     if post == "anneal_sliced":
         return {"simulated_annealing_opts": {"tsteps": 2, "numiter": 2, "seed": 7, "target_size": tgt}}
+    if post == "reconf_forest":
+        return {"reconf_opts": {"forested": True, "num_trees": 2, "num_restarts": 2, "subtree_size": 4, "subtree_maxiter": 3, "seed": 5}}
+    if post == "slicing_reconf_forest":
+        return {"slicing_reconf_opts": {"forested": True, "target_size": tgt, "num_trees": 2, "max_repeats": 2, "reconf_opts": {"subtree_size": 3, "maxiter": 2}}}
+    if post.startswith("creconf"):
+        # compressed optimizer: reconf_opts -> CompressedReconfTrial -> windowed_reconfigure_
+        w = post[len("creconf"):]
+        return {"reconf_opts": ({"window_size": int(w), "max_iterations": 3, "seed": 3} if w else {"max_iterations": 2})}
     return {}
 
 
+def plain_flops_objective(trial):
+    return math.log2(trial["tree"].total_flops())
+
+
+def minimize_arg(case):
+    spec = case.get("minimize_obj")
+    if spec == "plain-callable":
+        return plain_flops_objective
+    if spec:
+        from cotengra import scoring
+
+        return getattr(scoring, spec[0])(**spec[1])
+    return case["minimize"]
+
+
+def make_executor(executor, order):
+    """-> (value for parallel=, pool object or None)"""
+    if executor == "serial":
+        return False, None
+    if executor == "scripted":
+        pool = sched.ScriptedPool(order, max_workers=1)
+        return pool, pool
+    if executor == "threads":
+        import concurrent.futures
+
+        pool = concurrent.futures.ThreadPoolExecutor(3)
+        return pool, pool
+    if executor == "auto":
+        # the default a user gets (here: cotengra's reusable loky process pool; methods registered only in
+        # this process fail there, which is one more source of skipped trials)
+        return "auto", None
+    if executor == "threads_str":
+        return "threads", None
+    if executor in ("loky", "concurrent.futures"):
+        return executor, None
+    raise ValueError(executor)
+
+
+class Run:
+    """what one (possibly two-round) search left behind"""
+
+
 def run_search(case, executor, order=None, faults=False, log=None):
-    """-> (opt, tree_or_exception, pool)"""
+    """-> Run(opt, res = tree or exception, pool, marks, path, pool2)"""
     net = gen.Net.from_json(case["net"])
     FAULT["calls"] = 0
     FAULT["on"] = faults
     FAULT["fail_at"] = {int(k): v for k, v in case.get("fail_at", {}).items()}
+    methods = case["methods"]
+    form = case.get("methods_form", "list")
     kw = dict(
-        methods=case["methods"], minimize=case["minimize"], max_repeats=case["max_repeats"], max_time=case.get("max_time"),
-        optlib=case["optlib"], on_trial_error="ignore", progbar=False,
+        methods=None if form == "none" else methods[0] if form == "str" else methods,
+        minimize=minimize_arg(case), max_repeats=case["max_repeats"], max_time=case.get("max_time"),
+        optlib=case["optlib"], on_trial_error=case.get("on_trial_error", "ignore"), progbar=bool(case.get("progbar")),
     )
     if case["optlib"] == "random":
         kw["seed"] = case["opt_seed"]
     kw.update(post_opts(case["post"], case["tree_size"]))
-    pool = None
-    if executor == "serial":
-        kw["parallel"] = False
-    elif executor == "scripted":
-        pool = sched.ScriptedPool(order, max_workers=1)
-        kw["parallel"] = pool
-    elif executor == "threads":
-        import concurrent.futures
-
-        pool = concurrent.futures.ThreadPoolExecutor(3)
-        kw["parallel"] = pool
-    elif executor in ("loky", "concurrent.futures"):
-        kw["parallel"] = executor
-    opt = ctg.HyperOptimizer(**kw)
+    kw["parallel"], pool = make_executor(executor, order)
+    r = Run()
+    r.pool, r.pool2, r.path, r.marks, r.parallel_values = pool, None, None, [], [kw["parallel"]]
+    if case.get("kind") == "compressed":
+        opt = ctg.HyperCompressedOptimizer(chi=case["chi"], **kw)
+        r.minimize = kw["minimize"] if case["chi"] is None else f"{kw['minimize']}-{case['chi']}"
+    else:
+        opt = ctg.HyperOptimizer(**kw)
+        r.minimize = kw["minimize"]
+    r.opt = opt
     orig = opt._maybe_report_result
 
     def recording(setting, trial):
@@ -133,6 +248,17 @@ def run_search(case, executor, order=None, faults=False, log=None):
         return orig(setting, trial)
 
     opt._maybe_report_result = recording
+    # a search that stops early on a pool the harness does not own (cotengra's shared thread / process pool)
+    # leaves trials running after it returned: they draw from the global generator while the NEXT case runs.
+    # Remember the futures the optimizer abandons and wait for them before going on.
+    leftover = []
+    cancel = opt._maybe_cancel_futures
+
+    def cancel_and_remember():
+        leftover.extend(f for _, f in getattr(opt, "_futures", None) or [])
+        return cancel()
+
+    opt._maybe_cancel_futures = cancel_and_remember
     import random
 
     random.seed(case["case_seed"])
@@ -151,22 +277,257 @@ def run_search(case, executor, order=None, faults=False, log=None):
             return setting
 
         opt._optimizer = dict(opt._optimizer, get_setting=seeded_get_setting)
+
+    def one_round():
+        with contextlib.redirect_stderr(io.StringIO()) if case.get("progbar") else contextlib.nullcontext():
+            if case.get("api") == "call":
+                # opt_einsum interface: the path comes back, the tree is read through get_tree()
+                r.path = opt(net.inputs, net.output, net.size_dict)
+                return opt.get_tree()
+            return opt.search(net.inputs, net.output, net.size_dict)
+
+    pools = [pool] if executor == "threads" else []
     try:
-        res = opt.search(net.inputs, net.output, net.size_dict)
+        r.res = one_round()
+        r.marks.append(len(log) if log is not None else 0)
+        second = case.get("second")
+        if second and not isinstance(r.res, Exception):
+            order2 = None
+            if second["executor"] == "scripted":
+                perm = list(range(case["max_repeats"]))
+                rng_for(case["case_seed"], "second").shuffle(perm)
+                order2 = sched.order_from_permutation(perm)
+            value, r.pool2 = make_executor(second["executor"], order2)
+            if second["executor"] == "threads":
+                pools.append(r.pool2)
+            opt.parallel = value
+            r.parallel_values.append(value)
+            r.res = one_round()
+            r.marks.append(len(log) if log is not None else 0)
     except Exception as e:
-        res = e
+        r.res = e
+        r.marks.append(len(log) if log is not None else 0)
     finally:
-        if executor == "threads":
-            pool.shutdown(wait=True)
-    return opt, res, pool
+        for p_ in pools:
+            p_.shutdown(wait=True)
+        for f in leftover:
+            try:
+                if hasattr(f, "exception"):
+                    f.exception(timeout=60)
+            except BaseException:   # cancelled / timed out: nothing is running any more (or it is hopeless)
+                pass
+    return r
 
 
-def check_log(rep, case, net, opt, res, log, label):
+# ------------------------------ independent objective values ---------------- #
+
+
+def objective_spec(case):
+    """-> (name, params) of the exact objective the case minimizes"""
+    spec = case.get("minimize_obj")
+    if spec == "plain-callable":
+        return ("plain", {})
+    if spec:
+        return (spec[0][: -len("Objective")].lower(), dict(spec[1]))
+    return (case["minimize"], {})
+
+
+def objective_value(spec, m):
+    """the documented objective from the independent cost model ``m`` (ref.Costs)"""
+    name, p = spec
+    F, W, S = m.total_flops(), m.total_write(), m.max_size()
+    sw = p.get("secondary_weight", 1e-3)
+    if name == "plain":
+        return math.log2(F)
+    if name == "flops":
+        return math.log2(F) + sw * math.log2(W) + sw * math.log2(S)
+    if name == "write":
+        return sw * math.log2(F) + math.log2(W) + sw * math.log2(S)
+    if name == "size":
+        return sw * math.log2(F) + sw * math.log2(W) + math.log2(S)
+    factor = p.get("factor", 64)
+    if name == "combo":
+        return math.log2(F + factor * W)
+    if name == "limit":
+        return math.log2(m.mult * sum(max(m.node_flops(q), factor * m.node_size(q)) for q in m.children))
+    raise ValueError(name)
+
+
+def compressed_reference(case, net, tree):
+    """figures of the contraction order ``tree`` describes, recomputed on a tree rebuilt from its path with the
+    chi the USER asked for -> dict(flops, write, sizes=set of acceptable 'size' figures, value=objective)"""
+    from cotengra.core import ContractionTreeCompressed
+
+    chi = case["chi"] if case["chi"] is not None else max(net.size_dict.values()) ** 2
+    fresh = ContractionTreeCompressed.from_path(net.inputs, net.output, net.size_dict, path=tree.get_path())
+    st = fresh.compressed_contract_stats(chi, compress_late=False)
+    which = case["minimize"]
+    l2 = math.log2
+    if which == "peak-compressed":
+        value = l2(st.peak_size) + 1e-3 * l2(st.flops) + 1e-3 * l2(st.write)
+    elif which in ("size-compressed", "max-compressed"):
+        value = l2(st.max_size) + 1e-3 * l2(st.flops) + 1e-3 * l2(st.write)
+    elif which == "write-compressed":
+        value = l2(st.write) + 1e-3 * l2(st.flops) + 1e-3 * l2(st.peak_size)
+    elif which == "flops-compressed":
+        value = l2(st.flops) + 1e-3 * l2(st.write) + 1e-3 * l2(st.peak_size)
+    else:
+        value = l2(st.flops + 64 * st.write)
+    sizes = {st.max_size, st.peak_size} | ({st.write} if which == "write-compressed" else set())
+    return {"flops": st.flops, "write": st.write, "sizes": sizes, "value": value}
+
+
+SMUDGE = 1e-5
+
+
+def score_mismatch(opt, score, value):
+    want = value ** opt.score_compression
+    return None if abs(score - want) <= SMUDGE + 1e-12 * abs(want) else want
+
+
+# ------------------------------ reading the record back --------------------- #
+
+
+def close(a, b):
+    if a == b:
+        return True
+    try:
+        a, b = float(a), float(b)
+        if math.isinf(a) or math.isinf(b) or a != a or b != b:
+            return False
+        return abs(a - b) <= 1e-9 * max(1.0, abs(b))
+    except (TypeError, ValueError, OverflowError):
+        return False
+
+
+def logs_of(x):
+    return (math.log2(x), math.log10(x))
+
+
+def same_value(a, b):
+    """a value read back from a DataFrame cell vs the python value that was recorded"""
+    try:
+        if a == b:
+            return True
+    except Exception:
+        pass
+    if isinstance(b, (int, float)) and not isinstance(b, bool):
+        return close(a, b)
+    return str(a) == str(b)
+
+
+def records_of(df):
+    cols = list(df.columns)
+    return [dict(zip(cols, row)) for row in df.itertuples(index=False, name=None)]
+
+
+def check_records(rep, case, opt, log, label, winner_figures, heavy):
+    """R1-R4: the per-trial record as a user reads it.  ``winner_figures`` = (index of the winning trial in
+    the log, {flops, write, size} of the RETURNED tree from the reference model) or None."""
+    # R1
+    rep.mon("R1_get_trials")
+    rows = opt.get_trials()
+    if len(rows) != len(log):
+        return ("R1", f"{label}: get_trials() has {len(rows)} rows for {len(log)} reported trials")
+    for i, (row, e) in enumerate(zip(rows, log)):
+        t = e["trial"]
+        method, size, flops, write, params = row
+        if method != e["method"] or dict(params) != e["params"]:
+            return ("R1", f"{label}: get_trials() row {i} names ({method}, {params}) but trial #{i} ran ({e['method']}, {e['params']})")
+        if (size, flops, write) != (t["size"], t["flops"], t["write"]):
+            return ("R1", f"{label}: get_trials() row {i} says size/flops/write {(size, flops, write)} but trial #{i} recorded {(t['size'], t['flops'], t['write'])}")
+    if winner_figures is not None:
+        wi, fig = winner_figures
+        _, size, flops, write, _ = rows[wi]
+        if (flops, write) != (fig["flops"], fig["write"]) or size not in fig["sizes"]:
+            return ("R1", f"{label}: get_trials() row {wi} (the winner) says size/flops/write {(size, flops, write)}; the returned tree has {fig}")
+    if not heavy:
+        return None
+    # R2
+    rep.mon("R2_sorted_views")
+    # every successful trial keeps its own record in every sorted view and no record appears that no trial
+    # produced (whether failed trials are listed there is not promised)
+    import collections
+
+    base = collections.Counter(map(repr, rows))
+    must = collections.Counter(repr(r_) for r_, e in zip(rows, log) if e["trial"]["score"] < float("inf"))
+    for how in ("method", "combo", "size", "flops", "write"):
+        view = collections.Counter(map(repr, opt.get_trials(sort=how)))
+        if view - base or must - view:
+            return ("R2", f"{label}: get_trials(sort={how!r}) does not list the trials' records: foreign rows {list(view - base)[:2]}, missing rows {list(must - view)[:2]}")
+    # R3
+    rep.mon("R3_print_trials")
+    how = (None, "flops", "size", "method")[len(log) % 4]
+    buf = io.StringIO()
+    with contextlib.redirect_stdout(buf):
+        opt.print_trials(how) if how else opt.print_trials()
+    lines = [ln for ln in buf.getvalue().splitlines() if ln.strip()][1:]
+    want_rows = opt.get_trials(sort=how) if how else rows
+    if len(lines) != len(want_rows):
+        return ("R3", f"{label}: print_trials({how!r}) printed {len(lines)} rows for {len(want_rows)} trials")
+    for ln, (method, size, flops, write, params) in zip(lines, want_rows):
+        parts = ln.split(None, 4)
+        want = [method, f"{math.log2(size):.2f}", f"{math.log10(flops):.2f}", f"{math.log10(write):.2f}", str(params)]
+        if parts != want:
+            return ("R3", f"{label}: print_trials({how!r}) printed {parts} for the trial {want}")
+    # R4
+    try:
+        import pandas  # noqa: F401
+    except ImportError:
+        rep.count("unobserved", "pandas not importable: to_df / to_dfs_parametrized skipped")
+        return None
+    rep.mon("R4_dataframes")
+
+    def figures_match(rec, method, i):
+        e = log[i]
+        t = e["trial"]
+        return method == e["method"] and close(rec["score"], t["score"]) and all(any(close(rec[c], v) for v in logs_of(t[c])) for c in ("size", "flops", "write"))
+
+    def params_match(rec, i):
+        return all(same_value(rec.get(k_), v_) for k_, v_ in log[i]["params"].items() if k_ not in ("run", "time", "size", "flops", "write", "score"))
+
+    def take(pool_, method, rec, with_params):
+        """the not yet matched trial this DataFrame row describes (rows are matched to trials by content:
+        the numbering of the ``run`` column is not part of the property)"""
+        for i in pool_:
+            if figures_match(rec, method, i) and (not with_params or params_match(rec, i)):
+                pool_.remove(i)
+                return i
+        return None
+
+    df = opt.to_df()
+    left = list(range(len(log)))
+    for rec in records_of(df):
+        if take(left, rec["method"], rec, False) is None:
+            return ("R4", f"{label}: to_df() has the row {rec} which is no reported trial's (method, score, log figures); unmatched trials {[(log[i]['method'], log[i]['trial']['score'], log[i]['trial']['flops']) for i in left][:3]}")
+    if any(log[i]["trial"]["score"] < float("inf") for i in left):
+        return ("R4", f"{label}: to_df() lacks the successful trials {left}")
+    dfs = opt.to_dfs_parametrized()
+    left = list(range(len(log)))
+    for method, d in dfs.items():
+        for rec in records_of(d):
+            if take(left, method, rec, True) is None:
+                cand = [i for i in left if figures_match(rec, method, i)]
+                if cand:
+                    return ("R4", f"{label}: to_dfs_parametrized()[{method!r}] has the row {rec}: the figures are those of trial(s) {cand} but the parameters are not (trial #{cand[0]} ran with {log[cand[0]]['params']})")
+                return ("R4", f"{label}: to_dfs_parametrized()[{method!r}] has the row {rec} which is no reported {method} trial's (score, log figures)")
+    if any(log[i]["trial"]["score"] < float("inf") for i in left):
+        return ("R4", f"{label}: to_dfs_parametrized() lacks the successful trials {left}")
+    return None
+
+
+def check_log(rep, case, net, run, log, label, heavy=True):
+    opt, res = run.opt, run.res
+    compressed = case.get("kind") == "compressed"
     finite = [e for e in log if e["trial"]["score"] < float("inf")]
     # H1
     rep.mon("H1_count")
-    if len(log) > case["max_repeats"]:
-        return ("H1", f"{label}: {len(log)} trials reported for max_repeats={case['max_repeats']}")
+    rounds = len(run.marks)
+    if len(log) > case["max_repeats"] * rounds:
+        return ("H1", f"{label}: {len(log)} trials reported for max_repeats={case['max_repeats']} x {rounds} search(es)")
+    for a, b in zip([0] + run.marks, run.marks):
+        if b - a > case["max_repeats"]:
+            return ("H1", f"{label}: one search reported {b - a} trials for max_repeats={case['max_repeats']} (trials per search: {[y - x for x, y in zip([0] + run.marks, run.marks)]})")
     if list(opt.scores) != [e["trial"]["score"] for e in log]:
         return ("H1", f"{label}: opt.scores is not the sequence of reported trial scores")
     if len(opt.costs_flops) != len(log) or len(opt.method_choices) != len(log):
@@ -174,7 +535,8 @@ def check_log(rep, case, net, opt, res, log, label):
     if not finite:
         if not isinstance(res, Exception):
             return ("H3", f"{label}: search returned {res!r} although every trial failed")
-        return None
+        rep.count("all_trials_failed", case.get("kind", "exact") + "|" + case["post"])
+        return check_records(rep, case, opt, log, label, None, heavy)
     if isinstance(res, Exception):
         return ("raises", f"{label}: search raised {type(res).__name__}: {res} with {len(finite)} successful trials")
     # H2
@@ -200,24 +562,110 @@ def check_log(rep, case, net, opt, res, log, label):
     msg = ref.check_tree_struct(net.N, ct.children_of(tree))
     if msg:
         return ("H3", f"{label}: returned tree: {msg}")
-    # H4 (all successful trials with a tree, the winner first)
-    for e in [best_entry] + [x for x in finite if x is not best_entry]:
-        t = e["trial"]
-        tr = t.get("tree")
-        if tr is None:
-            continue
-        rep.mon("H4_costs_true")
-        stats = dict(tr.contract_stats())
-        rec = {k: t[k] for k in ("flops", "write", "size")}
-        m = ct.costs_of(tr)
-        model = {"flops": m.total_flops(), "write": m.total_write(), "size": m.max_size()}
-        if rec != stats:
-            return ("H4", f"{label}: trial #{e['t']} ({e['method']}) recorded {rec} but its tree reports {stats}")
-        if stats != model:
-            return ("H4_tree_misreports", f"{label}: trial #{e['t']} tree reports {stats}, independent model {model}")
-        i = e["t"]
-        if (opt.costs_flops[i], opt.costs_write[i], opt.costs_size[i]) != (rec["flops"], rec["write"], rec["size"]):
-            return ("H4", f"{label}: optimizer's per-trial cost lists disagree with trial #{i}")
+    # R5: the other ways of asking for the answer
+    rep.mon("R5_get_tree_path")
+    if opt.get_tree() is not tree or opt.tree is not tree:
+        return ("R5", f"{label}: get_tree() / .tree is not the returned tree")
+    if opt.minimize is not run.minimize and opt.minimize != run.minimize:
+        return ("R5", f"{label}: opt.minimize reads {opt.minimize!r}, the search was asked to minimize {run.minimize!r}")
+    path_ = [tuple(p) for p in opt.path]
+    if ref.check_linear_path(net.N, path_) or set(ref.path_to_nodes(net.N, path_)) != set(ct.children_of(tree)):
+        return ("R5", f"{label}: .path does not build the returned tree")
+    if run.path is not None:
+        msg = ref.check_linear_path(net.N, [tuple(p) for p in run.path])
+        if msg:
+            return ("R5", f"{label}: __call__ returned path: {msg}")
+        if set(ref.path_to_nodes(net.N, [tuple(p) for p in run.path])) != set(ct.children_of(tree)):
+            return ("R5", f"{label}: __call__ returned a path that does not build the best tree")
+    s1_bad = None
+    if compressed:
+        # C1: winner's figures and score vs the returned contraction order, rebuilt, with the user's chi
+        rep.mon("C1_compressed_figures")
+        if case["post"].startswith("creconf"):
+            rep.mon("cfg:compressed_reconf")
+        if type(tree).__name__ != "ContractionTreeCompressed":
+            return ("C1", f"{label}: the compressed optimizer returned a {type(tree).__name__}")
+        values = {}
+        for e in [best_entry] + [x for x in finite if x is not best_entry]:
+            t = e["trial"]
+            if t.get("tree") is None:
+                continue
+            fig = compressed_reference(case, net, t["tree"])
+            values[e["t"]] = fig["value"]
+            if e is best_entry:
+                winner = (e["t"], fig)
+            if (t["flops"], t["write"]) != (fig["flops"], fig["write"]) or t["size"] not in fig["sizes"]:
+                return ("C1", f"{label}: trial #{e['t']} ({e['method']}) recorded flops/write/size {(t['flops'], t['write'], t['size'])}; its contraction order rebuilt with chi={case['chi']} gives {fig}")
+            want = score_mismatch(opt, t["score"], fig["value"])
+            if want is not None:
+                return ("C1", f"{label}: trial #{e['t']} ({e['method']}) score {t['score']} but its contraction order scores {want} under {case['minimize']} chi={case['chi']}")
+            i = e["t"]
+            if (opt.costs_flops[i], opt.costs_write[i], opt.costs_size[i]) != (t["flops"], t["write"], t["size"]):
+                return ("C1", f"{label}: optimizer's per-trial cost lists disagree with trial #{i}")
+    else:
+        # H4 (all successful trials with a tree, the winner first)
+        spec = objective_spec(case)
+        values = {}
+        winner = None
+        for e in [best_entry] + [x for x in finite if x is not best_entry]:
+            t = e["trial"]
+            tr = t.get("tree")
+            if tr is None:
+                continue
+            rep.mon("H4_costs_true")
+            stats = dict(tr.contract_stats())
+            rec = {k: t[k] for k in ("flops", "write", "size")}
+            m = ct.costs_of(tr)
+            model = {"flops": m.total_flops(), "write": m.total_write(), "size": m.max_size()}
+            if rec != stats:
+                return ("H4", f"{label}: trial #{e['t']} ({e['method']}) recorded {rec} but its tree reports {stats}")
+            if stats != model:
+                return ("H4_tree_misreports", f"{label}: trial #{e['t']} tree reports {stats}, independent model {model}")
+            i = e["t"]
+            if (opt.costs_flops[i], opt.costs_write[i], opt.costs_size[i]) != (rec["flops"], rec["write"], rec["size"]):
+                return ("H4", f"{label}: optimizer's per-trial cost lists disagree with trial #{i}")
+            if e is best_entry:
+                winner = (i, {"flops": model["flops"], "write": model["write"], "sizes": {model["size"]}})
+            # S1: the trial's score is the score of its (final) tree
+            rep.mon("S1_score_of_tree")
+            values[i] = objective_value(spec, m)
+            want = score_mismatch(opt, t["score"], values[i])
+            if want is not None and s1_bad is None:
+                s1_bad = ("S1", f"{label}: trial #{i} ({e['method']}) score {t['score']} but its tree scores {want} (= {values[i]} ** {opt.score_compression}) under {spec}")
+    # S2: the returned tree is truly the best of the trees that were tried (the statement itself; S1 is the
+    # per-trial mechanism behind it and is reported second)
+    if best_entry["t"] in values:
+        rep.mon("S2_true_min")
+        vb = values[best_entry["t"]] ** opt.score_compression
+        for i, v in values.items():
+            if v ** opt.score_compression < vb - 2 * SMUDGE:
+                return ("S2", f"{label}: the returned tree (trial #{best_entry['t']}) has objective value {values[best_entry['t']]} but trial #{i}'s tree has {v}")
+    if s1_bad:
+        return s1_bad
+    return check_records(rep, case, opt, log, label, winner, heavy)
+
+
+def check_second(rep, case, run, log, label):
+    """P1: what the second search on the same object must have done"""
+    if len(run.marks) < 2:
+        return None
+    rep.mon("P1_second_search")
+    opt = run.opt
+    if opt.parallel is not run.parallel_values[-1] and opt.parallel != run.parallel_values[-1]:
+        return ("P1", f"{label}: opt.parallel reads {opt.parallel!r} after being set to {run.parallel_values[-1]!r}")
+    n1, n2 = run.marks[0], run.marks[1] - run.marks[0]
+    first, second = case["executor"], case["second"]["executor"]
+    if case.get("max_time") is None and n2 == 0:
+        return ("P1", f"{label}: the second search ran no trial")
+    # the pool that is set is the pool that is used
+    if first in ("scripted", "threads") or second in ("scripted", "threads"):
+        rep.mon("P1_pool_switch")
+    if second == "scripted" and run.pool2.n_submitted < n2:
+        return ("P1", f"{label}: {n2} trials reported in the second search but only {run.pool2.n_submitted} were submitted to the pool set through opt.parallel")
+    if first == "scripted" and run.pool.n_submitted < n1:
+        return ("P1", f"{label}: {n1} trials reported in the first search but only {run.pool.n_submitted} were submitted to its pool")
+    if first == "scripted" and second != "scripted" and run.pool.n_submitted > case["max_repeats"]:
+        return ("P1", f"{label}: the first pool received {run.pool.n_submitted} trials although opt.parallel was switched away after {n1}")
     return None
 
 
@@ -226,14 +674,32 @@ def trial_sig(e):
     return (e["method"], tuple(sorted((k, repr(v)) for k, v in e["params"].items())), t.get("flops"), t.get("write"), t.get("size"))
 
 
+def unlimited(case):
+    mt = case.get("max_time")
+    return mt is None or (isinstance(mt, (int, float)) and mt >= 30)
+
+
 def execute(rep, case):
     install()
     net = gen.Net.from_json(case["net"])
     ex = case["executor"]
     for part in case["post"].split("+"):
-        rep.mon("post:" + {"anneal_sliced": "anneal"}.get(part, part))
+        name = {"anneal_sliced": "anneal", "reconf_forest": "reconf", "slicing_reconf_forest": "slicing_reconf"}.get(part, part)
+        rep.mon("post:" + ("reconf" if name.startswith("creconf") else name))
+        if part.endswith("_forest"):
+            rep.mon("cfg:forest")
     if "+" in case["post"]:
         rep.mon("post:stacked")
+    if case.get("minimize_obj") == "plain-callable":
+        rep.mon("cfg:plain_callable")
+    elif case.get("minimize_obj"):
+        rep.mon("cfg:objective_instance")
+    if isinstance(case.get("max_time"), (int, float)):
+        rep.mon("cfg:max_time_seconds")
+    if case.get("progbar"):
+        rep.mon("cfg:progbar")
+    if case.get("api") == "call":
+        rep.mon("cfg:call_api")
     if ex == "scripted":
         n = case["max_repeats"]
         if case.get("perm") is not None:
@@ -251,15 +717,17 @@ def execute(rep, case):
                 r.shuffle(p)
                 orders.append(p)
         base_sigs = None
-        for perm in orders:
+        for k, perm in enumerate(orders):
             log = []
-            opt, res, pool = run_search(case, "scripted", order=sched.order_from_permutation(list(perm)), faults=bool(case.get("fail_at")), log=log)
+            run = run_search(case, "scripted", order=sched.order_from_permutation(list(perm)), faults=bool(case.get("fail_at")), log=log)
+            pool = run.pool
             rep.mon("scripted_orders")
             rep.seen("completion_orders", tuple(pool.completion_order))
-            bad = check_log(rep, case, net, opt, res, log, f"completion order {pool.completion_order}")
+            label = f"completion order {pool.completion_order}"
+            bad = check_log(rep, case, net, run, log, label, heavy=(k == 0)) or check_second(rep, case, run, log, label)
             if bad:
                 return bad[0], bad[1], {"perm": list(perm)}
-            if case.get("max_time") is None:
+            if unlimited(case) and not case.get("second"):
                 sigs = sorted(map(repr, map(trial_sig, log)))
                 if base_sigs is None:
                     base_sigs = sigs
@@ -267,18 +735,18 @@ def execute(rep, case):
                     return "order_dependence", f"the set of trial records changed with the completion order {pool.completion_order}", {"perm": list(perm)}
         return None
     log = []
-    opt, res, _ = run_search(case, ex, faults=bool(case.get("fail_at")), log=log)
-    if ex == "threads":
+    run = run_search(case, ex, faults=bool(case.get("fail_at")), log=log)
+    if ex in ("threads", "threads_str", "auto"):
         rep.mon("threadpool_runs")
     if ex in ("loky", "concurrent.futures"):
         rep.mon("processpool_runs")
-    bad = check_log(rep, case, net, opt, res, log, ex)
+    bad = check_log(rep, case, net, run, log, ex) or check_second(rep, case, run, log, ex)
     if bad:
         return bad[0], bad[1], {}
     # H5: with / without faults
-    if case.get("fail_at") and ex == "serial" and case["optlib"] == "random" and case.get("max_time") is None:
+    if case.get("fail_at") and ex == "serial" and case["optlib"] == "random" and unlimited(case) and not case.get("second"):
         log_b = []
-        opt_b, res_b, _ = run_search(case, ex, faults=False, log=log_b)
+        run_search(case, ex, faults=False, log=log_b)
         rep.mon("H5_faults_skipped")
         if len(log_b) != len(log):
             return "H5", f"{len(log)} trials with faults vs {len(log_b)} without", {}
@@ -316,13 +784,65 @@ def gen_case(rng, cs, tier):
         case["executor"] = rng.choice(["loky", "concurrent.futures"])
         case["methods"] = [m for m in methods if m != "verif-faulty"] or ["greedy"]
         case.pop("fail_at", None)
+    widen(case, cs)
     return case
+
+
+def widen(case, cs):
+    """the widened dimensions, from a generator of their own (the base case above is what it always was)"""
+    rw = rng_for(cs, "widen")
+    case["kind"] = "exact"
+    pools = case["executor"] in ("loky", "concurrent.futures")
+    if rw.random() < 0.06 and not pools:
+        # HyperCompressedOptimizer (the windowed reconfiguration is the expensive part: few trials, few orders)
+        case.update(
+            kind="compressed", chi=rw.choice([None, 2, 4, 8]), minimize=rw.choice(COMPRESSED_OBJECTIVES),
+            methods=rw.sample(COMPRESSED_METHODS, rw.randint(1, 3)),
+            post=rw.choice(["none", "creconf4", "creconf4", "creconf3", "creconf6", "creconf"]),
+            max_repeats=min(case["max_repeats"], 5),
+        )
+        if case["executor"] == "scripted":
+            case["max_orders"] = 4
+        case.pop("fail_at", None)
+    elif rw.random() < 0.2:
+        name, kw_ = rw.choice(OBJECTIVE_SPECS)
+        case["minimize_obj"] = [name, dict(kw_)]
+    elif PLAIN_CALLABLE_MINIMIZE and rw.random() < 0.06:
+        case["minimize_obj"] = "plain-callable"
+        case["post"] = "none"   # see ASSUMPTIONS
+    if case["kind"] == "exact":
+        if rw.random() < 0.03 and case.get("minimize_obj") != "plain-callable":
+            case["post"] = rw.choice(["reconf_forest", "slicing_reconf_forest", "slicing+reconf_forest"])
+            case["max_repeats"] = min(case["max_repeats"], 4)   # a forest per trial is expensive
+        if "verif-faulty" not in case["methods"]:
+            u = rw.random()
+            if u < 0.04:
+                case["methods_form"] = "none"   # the default method set
+            elif u < 0.2 and len(case["methods"]) == 1:
+                case["methods_form"] = "str"
+    if case["optlib"] == "cmaes" and rw.random() < 0.3:
+        case["optlib"] = None   # the library default
+    if rw.random() < 0.12:
+        case["max_time"] = rw.choice([0.0, 0.003, 30.0, 30.0])
+    if rw.random() < 0.1:
+        case["progbar"] = True
+    if rw.random() < 0.3:
+        case["on_trial_error"] = "warn"
+    if rw.random() < 0.15:
+        case["api"] = "call"
+    if case["executor"] == "threads" and rw.random() < 0.25:
+        # (parallel='auto' is a loky process pool here, a second per search: one forced case in every 4th shard)
+        case["executor"] = "threads_str"
+    if case["executor"] in ("serial", "threads", "scripted") and rw.random() < (0.05 if case["executor"] == "scripted" else 0.12):
+        case["second"] = {"executor": rw.choice(["serial", "scripted", "scripted", "threads"])}
+        if case["executor"] == "scripted":
+            case["max_orders"] = min(case.get("max_orders", 4), 4)   # two searches per forced order
 
 
 def run_shard(rep, tier, seed, shard, nshards):
     warnings.filterwarnings("ignore")
     dl = Deadline(budget(tier, 60, 900))
-    for k in range(budget(tier, 250, 6000)):
+    for k in range(budget(tier, 500, 6000)):
         if dl.expired():
             break
         cs = f"{seed}/C08/{shard}/{k}"
@@ -330,7 +850,29 @@ def run_shard(rep, tier, seed, shard, nshards):
         case = gen_case(rng, cs, tier)
         if k < 2:
             # make sure the fault comparison is exercised in every shard
-            case.update(executor="serial", optlib="random", max_time=None, methods=["verif-faulty", "greedy"], fail_at={"1": "raise", "3": "bad"}, max_repeats=8)
+            case.update(executor="serial", optlib="random", max_time=None, methods=["verif-faulty", "greedy"], fail_at={"1": "raise", "3": "bad"}, max_repeats=8,
+                        kind="exact", minimize=case["minimize"] if case.get("kind") != "compressed" else "flops")
+            for k_ in ("second", "methods_form", "chi"):
+                case.pop(k_, None)
+            if case["post"].startswith("creconf"):
+                case["post"] = "none"
+        elif k == 2:
+            # ... and the compressed optimizer with its windowed reconfiguration
+            case.update(kind="compressed", chi=(None, 2, 4, 8)[shard % 4], minimize=COMPRESSED_OBJECTIVES[shard % 6], methods=list(COMPRESSED_METHODS[: 1 + shard % 3]),
+                        post="creconf4", executor=("serial", "scripted", "threads")[shard % 3], max_repeats=4, max_orders=budget(tier, 6, 24))
+            for k_ in ("fail_at", "minimize_obj", "methods_form", "second"):
+                case.pop(k_, None)
+        elif k == 4 and shard % 4 == 1:
+            # ... and the default parallel='auto'
+            case["executor"] = "auto"
+            case["max_repeats"] = min(case["max_repeats"], 4)
+            case.pop("second", None)
+        elif k == 3:
+            # ... and a second search after switching the executor through opt.parallel
+            case["executor"] = ("serial", "threads", "serial", "scripted")[shard % 4]
+            case["second"] = {"executor": ("scripted", "serial", "threads", "serial")[shard % 4]}
+            case["max_repeats"] = 4
+            case["max_orders"] = budget(tier, 12, 120)
         net = gen.Net.from_json(case["net"])
         try:
             with time_limit(120):
@@ -340,10 +882,12 @@ def run_shard(rep, tier, seed, shard, nshards):
             continue
         except Exception as e:
             res = ("harness", f"{type(e).__name__}: {e} | {traceback.format_exc()[-600:]}", {})
-        rep.case((net.key(), tuple(case["methods"]), case["minimize"], case["post"], case["executor"], case["max_repeats"], case["optlib"], case.get("max_time"), repr(case.get("fail_at"))),
+        rep.case((net.key(), tuple(case["methods"]), case["minimize"], repr(case.get("minimize_obj")), case.get("chi"), case["post"], case["executor"], repr(case.get("second")),
+                  case["max_repeats"], case["optlib"], case.get("max_time"), repr(case.get("fail_at")), case.get("api"), case.get("methods_form")),
                  case["max_repeats"] >= 3, net.cls,
                  sample={k_: v_ for k_, v_ in case.items() if k_ != "net"} | {"eq": net.eq() if net.N < 10 else f"{net.N} tensors"})
         rep.count("executor", case["executor"])
+        rep.count("kind", case.get("kind", "exact"))
         rep.count("matrix", f"{case['post']}|{case['executor']}|{case['minimize']}")
         if res:
             if res[0] == "harness":
@@ -351,7 +895,7 @@ def run_shard(rep, tier, seed, shard, nshards):
                 continue
             w = dict(case)
             w.update(res[2])
-            rep.violation(res[0], w, f"methods={case['methods']} post={case['post']} executor={case['executor']} minimize={case['minimize']}: {res[1]}")
+            rep.violation(res[0], w, f"kind={case.get('kind')} methods={case['methods']} post={case['post']} executor={case['executor']} second={case.get('second')} minimize={case.get('minimize_obj') or case['minimize']}: {res[1]}")
 
 
 def replay(rep, v):
